@@ -23,6 +23,7 @@
                         the last ending in "retry"
 -/
 import PonyVerif.Lemmas.DbSession
+import PonyVerif.Lemmas.DbSessionMulti
 namespace PonyVerif.Props.C18
 open PonyVerif.Model.DbSession PonyVerif.Gen
 
@@ -442,6 +443,145 @@ theorem C18_generator_inside_session (env : Env) (o : Opts) (seg : Seg) (resume 
 theorem C18_generator_run (env : Env) (o : Opts) (steps : List (Seg × Resume)) (s : St) (hc : Clean s) :
     Clean (exec env (.iter o steps) s).1 ∧ s.committed <+: (exec env (.iter o steps) s).1.committed :=
   iterGen_clean env o steps s hc
+
+/-! ### several databases in one db_session: module-level `commit()` / `rollback()` over all session caches
+(Model/DbSessionMulti.lean).  Here the clause "otherwise nothing is committed" of C18 is FALSE for the code as it is —
+there is no two-phase commit — so the full statement is kept as a `def`, refuted by a witness that the engine replays on
+the real code on every run, and the strongest true statements are proved: every database on its own is atomic; a failing
+flush or a failing commit of the primary database commits nothing anywhere; under the guard `othersCommit` the whole
+session is all-or-nothing; a failed body leaves every database untouched whatever `rollback()` itself does. -/
+
+section MultiDb
+open PonyVerif.Model.DbSessionMulti
+
+/-- `rollback()` discards everything pending in every database and empties `local.db2cache` — also when the rollback of
+    some (or every) connection itself fails (the connection is dropped then) -/
+theorem C18_multi_rollback_discards (f : Faults) (cs : List Cache) :
+    Rel Unchanged cs (rollbackAll f cs).1 ∧ ∀ c ∈ (rollbackAll f cs).1, c.alive = false := by
+  refine ⟨rel_map rolledBack rolledBack_unchanged cs, ?_⟩
+  intro c hc
+  simp only [rollbackAll, List.mem_map] at hc
+  obtain ⟨x, _, rfl⟩ := hc
+  rfl
+
+/-- the outermost exit of a session whose body failed with an exception that is not allowed: every database is left
+    untouched and `__exit__` raises nothing itself (a RollbackException is swallowed: the body's exception propagates),
+    for ANY number of databases and ANY rollback failures -/
+theorem C18_multi_failed_body (f : Faults) (cs : List Cache) :
+    Rel Unchanged cs (exitSession f false cs).1 ∧ (exitSession f false cs).2 = none := by
+  simp only [exitSession, Bool.false_eq_true, if_false, and_true]
+  exact (C18_multi_rollback_discards f cs).1
+
+/-- every database on its own is atomic, whatever fails: it ends either with all of the session's writes to it committed
+    or untouched -/
+theorem C18_multi_each_atomic (f : Faults) (cs : List Cache) :
+    Rel (fun c c' => Unchanged c c' ∨ Committed c c') cs (commitAll f cs).1 := by
+  cases cs with
+  | nil => exact .nil
+  | cons p os =>
+    simp only [commitAll]
+    cases (p :: os).find? (flushRaises f) with
+    | some c => exact rel_mono (fun _ _ h => .inl h) (rel_map rolledBack rolledBack_unchanged (p :: os))
+    | none =>
+      dsimp only
+      rcases cacheCommit_cases f p with hp | hp
+      · simp only [hp.1, if_true]
+        exact .cons (.inl hp.2.1) (rel_mono (fun _ _ h => .inl h) (rel_map rolledBack rolledBack_unchanged os))
+      · simp only [hp.1, Bool.false_eq_true, if_false]
+        exact .cons (.inr hp.2.1) (others_shape f os)
+
+/-- a failing flush (of any database) or a failing commit of the PRIMARY database: nothing is committed anywhere -/
+theorem C18_multi_primary_atomic (f : Faults) (p : Cache) (os : List Cache)
+    (h : (∃ c ∈ p :: os, flushRaises f c = true) ∨ (p.pending ≠ [] ∧ f.commit p.db = true)) :
+    Rel Unchanged (p :: os) (commitAll f (p :: os)).1 ∧ (commitAll f (p :: os)).2 ≠ none := by
+  simp only [commitAll]
+  cases hfind : (p :: os).find? (flushRaises f) with
+  | some c => exact ⟨rel_map rolledBack rolledBack_unchanged (p :: os), by simp⟩
+  | none =>
+    rcases h with ⟨c, hc, hfl⟩ | ⟨hp1, hp2⟩
+    · rw [List.find?_eq_none] at hfind
+      exact absurd hfl (by simpa using hfind c hc)
+    · dsimp only
+      rcases cacheCommit_cases f p with hp | hp
+      · simp only [hp.1, if_true]
+        exact ⟨.cons hp.2.1 (rel_map rolledBack rolledBack_unchanged os), by simp⟩
+      · rcases hp.2.2 with h1 | h1
+        · exact absurd h1 hp1
+        · rw [hp2] at h1; cases h1
+
+/-- the guard under which the whole session is atomic across databases: no non-primary database that has something
+    pending fails to commit -/
+def othersCommit (f : Faults) (os : List Cache) : Prop := ∀ c ∈ os, c.pending = [] ∨ f.commit c.db = false
+
+/-- under that guard `commit()` is all-or-nothing across ALL databases: either everything pending is committed in every
+    database and nothing is raised, or an exception is raised and no database changed -/
+theorem C18_multi_atomic_partial (f : Faults) (p : Cache) (os : List Cache) (hg : othersCommit f os) :
+    ((commitAll f (p :: os)).2 = none ∧ Rel Committed (p :: os) (commitAll f (p :: os)).1) ∨
+    ((commitAll f (p :: os)).2 ≠ none ∧ Rel Unchanged (p :: os) (commitAll f (p :: os)).1) := by
+  by_cases hfl : ∃ c ∈ p :: os, flushRaises f c = true
+  · exact .inr ((C18_multi_primary_atomic f p os (.inl hfl)).symm)
+  · have hfind : (p :: os).find? (flushRaises f) = none := by
+      apply find_none_of_noflush
+      intro c hc
+      cases hv : flushRaises f c with
+      | false => rfl
+      | true => exact absurd ⟨c, hc, hv⟩ hfl
+    rcases cacheCommit_cases f p with hp | hp
+    · exact .inr ((C18_multi_primary_atomic f p os (.inr ⟨hp.2.2.1, hp.2.2.2⟩)).symm)
+    · left
+      have ho := others_ok f os hg
+      simp only [commitAll, hfind, hp.1, Bool.false_eq_true, if_false, ho.2]
+      exact ⟨trivial, .cons hp.2.1 ho.1⟩
+
+/-- the full statement: "`commit()` raises → nothing is committed in any database" -/
+def C18_multi_atomic_full : Prop :=
+  ∀ (f : Faults) (cs : List Cache), (commitAll f cs).2 ≠ none → Rel Unchanged cs (commitAll f cs).1
+
+/-- two databases, both written; the commit of the non-primary one fails -/
+def witnessCaches : List Cache := [{ db := 1, num := 1, pending := [11] }, { db := 0, num := 0, pending := [10] }]
+def witnessFaults : Faults := { commit := fun db => db == 0 }
+
+/-- … is FALSE for the code as it is: there is no two-phase commit; the primary database is already committed when the
+    commit of another one fails (PartialCommitException).  The engine replays this witness on the real code on every run. -/
+theorem C18_multi_atomic_full_false : ¬ C18_multi_atomic_full := by
+  intro h
+  have h1 := h witnessFaults witnessCaches (by decide)
+  have h2 : commitAll witnessFaults witnessCaches =
+      ([{ db := 1, num := 1, committed := [11] }, { db := 0, num := 0, alive := false }], some .partialCommit) := by decide
+  rw [h2] at h1
+  cases h1 with
+  | cons hab _ => exact absurd hab.2.1 (by decide)
+
+/-- when `commit()` ends with PartialCommitException the primary database IS committed -/
+theorem C18_multi_partial_means_primary_committed (f : Faults) (p : Cache) (os : List Cache)
+    (h : (commitAll f (p :: os)).2 = some .partialCommit) :
+    ∃ p' rest, (commitAll f (p :: os)).1 = p' :: rest ∧ Committed p p' := by
+  simp only [commitAll] at h ⊢
+  cases hfind : (p :: os).find? (flushRaises f) with
+  | some c => rw [hfind] at h; simp at h
+  | none =>
+    rw [hfind] at h
+    dsimp only at h ⊢
+    rcases cacheCommit_cases f p with hp | hp
+    · simp [hp.1] at h
+    · simp only [hp.1, Bool.false_eq_true, if_false]
+      exact ⟨_, _, rfl, hp.2.1⟩
+
+/-- the order in which `commit()` goes through the databases: `_get_caches()` yields the live caches sorted by
+    (priority, creation number), highest first — with equal priorities the database touched LAST is the primary one -/
+example : (getCaches [{ db := 0, num := 0 }, { db := 1, num := 1 }, { db := 2, num := 2, alive := false }]).map (·.db) = [1, 0] := by
+  decide
+example : (getCaches [{ db := 0, num := 0, priority := 5 }, { db := 1, num := 1 }]).map (·.db) = [0, 1] := by decide
+
+/-- non-vacuity of the guard -/
+example : othersCommit witnessFaults [{ db := 3, pending := [1] }, { db := 0 }] := by
+  intro c hc
+  simp only [List.mem_cons, List.mem_singleton, List.not_mem_nil, or_false] at hc
+  rcases hc with rfl | rfl
+  · right; rfl
+  · left; rfl
+
+end MultiDb
 
 /-! ### non-vacuity: concrete runs of the model -/
 
